@@ -109,6 +109,7 @@ def index_derived(fn, pv, operand, depth=0, seen=None):
 def run(ck, tier):
     ck.rule("R-C14-locfree", "typegraph: no field that feeds the Hash of LintContext is position-carrying (type Span, or an integer field that some workspace function assigns from a token-index source)")
     ck.rule("R-C14-agree", "ignore_lint and is_ignored obtain the hash from the same function with the same argument roles; remove_ignored retains exactly !is_ignored; LintContext::from_lint takes kind/suggestions/message/priority from the lint")
+    ck.rule("R-C14-context", "the ignore context hashes the TokenKind of neighbouring tokens, so a word's kind must be a function of its own characters: in Document::parse the dictionary lookup `*meta = dictionary.get_word_metadata(own span)` is the last writer of token kinds - no pass that runs after it rewrites a kind, unless it only touches the element it iterates over")
     ck.rule("R-C14-serde", "IgnoredLints derives Serialize+Deserialize without asymmetric attributes; wasm export/import use serde_json to_string/from_str on that type and import appends")
     ck.not_decided += ["hash collisions", "the exact 2-character neighbourhood arithmetic of LintContext::from_lint"]
     p = facts.load()
@@ -197,6 +198,112 @@ def run(ck, tier):
     n = serde_audit.audit(ck, p, "R-C14-serde", "harper_core::ignored_lints::IgnoredLints", "IgnoredLints")
     ck.floor("R-C14-serde", "ADTs in IgnoredLints serde graph", n, 1)
     _wasm_io(ck, p)
+    _context(ck, p)
+
+
+def _writes_kind(p, fn, memo, depth=0):
+    """(writes a token kind?, reads other tokens?) for a Document method, transitively inside harper_core::document"""
+    if fn.name in memo:
+        return memo[fn.name]
+    memo[fn.name] = (False, False)
+    from ..util import with_closures
+    from ..common import method, arg_fields
+    w = False
+    others = False
+    for b in with_closures(p, fn):
+        pv = Prov(b)
+        for blk in b.blocks:
+            if blk["cleanup"]:
+                continue
+            for sx in blk["s"]:
+                if sx["k"] != "assign":
+                    continue
+                lhs_f = [e[2] for e in sx["lhs"][1:] if isinstance(e, list) and e[0] == "f"]
+                if "kind" in lhs_f:
+                    w = True
+                if sx["rv"]["k"] == "ref" and sx["rv"].get("mut"):
+                    pf = [e[2] for e in sx["rv"]["place"][1:] if isinstance(e, list) and e[0] == "f"]
+                    if "kind" in pf:
+                        w = True
+                # a write through a reference that points into a kind (metadata.noun = None)
+                if len(sx["lhs"]) > 1 and sx["lhs"][1] == "*" and b.local_ty(sx["lhs"][0])["k"] == "ref" and b.local_ty(sx["lhs"][0]).get("mut"):
+                    if "kind" in field_names(pv.trace_local(sx["lhs"][0])):
+                        w = True
+        for bi, t in b.calls():
+            m = method(t)
+            # any access to self.tokens other than iter_mut() counts as looking at other tokens
+            if t["args"] and "tokens" in arg_fields(pv, t["args"][0]) and m in ("index", "index_mut", "get", "get_mut", "iter", "windows", "first", "last", "len", "split_at", "split_at_mut", "clone"):
+                others = True
+            inst = t["f"].get("inst") or ""
+            if "find_all_matches" in inst or "iter_chunks" in inst or "::token_string_ext::" in inst:
+                others = True
+            g = p.fns.get(inst)
+            if g is not None and g.name.startswith("harper_core::document::") and depth < 5 and g.name != fn.name:
+                gw, go = _writes_kind(p, g, memo, depth + 1)
+                w = w or gw
+                others = others or go
+    memo[fn.name] = (w, others)
+    return memo[fn.name]
+
+
+def _context(ck, p):
+    from ..cfg import Cfg
+    from ..common import def_of, inst_of, method
+    rule = "R-C14-context"
+    byk = fns_by_key(p)
+    fs = byk.get("Document::parse")
+    if not ck.anchor(rule, "Document::parse", fs):
+        return
+    f = fs[0]
+    ck.saw(f)
+    cfg = Cfg(f)
+    pv = Prov(f)
+    look = [(bi, t) for bi, t in f.calls() if def_of(t).endswith("Dictionary::get_word_metadata")]
+    if len(look) != 1:
+        ck.refuted(rule, "anchor-missing:metadata-lookup", f.span, "expected exactly one Dictionary::get_word_metadata call in Document::parse, found %d" % len(look))
+        return
+    lb = look[0][0]
+    loops = cfg.natural_loops()
+    inside = [h for h, body in loops.items() if lb in body]
+    if not inside:
+        ck.refuted(rule, "anchor-missing:metadata-loop", f.span, "the dictionary lookup is not inside a loop over the tokens")
+        return
+    head = max(inside, key=lambda h: len(loops[h]))
+    body = loops[head]
+    # the looked-up word is the token's own span, the result is stored into that token's Word payload
+    from ..common import arg_roots
+    own = any(o[0] == "call" and last(norm(o[3] or "")) == "get_content" for o in arg_roots(f, pv, look[0][1]["args"][1]))
+    stores = [(bi, sx) for bi in body for sx in f.blocks[bi]["s"] if sx["k"] == "assign" and len(sx["lhs"]) > 1 and sx["lhs"][1] == "*" and sx["rv"]["k"] == "use"
+              and any(o[0] == "call" and o[1] == lb for o in arg_roots(f, pv, sx["rv"]["op"]))]
+    ck.decide(rule, "Document::parse:lookup", own and len(stores) == 1, f.loc(look[0][1]["ln"]), "metadata = dictionary.get_word_metadata(span.get_content(source)) of the token's own span=%s, stored into the token (%d store)" % (own, len(stores)))
+    memo = {}
+    before, after, bad = [], [], []
+    for bi, t in f.calls():
+        g = p.fns.get(t["f"].get("inst") or "")
+        if g is None or not g.name.startswith("harper_core::document::") or bi in body:
+            continue
+        w, others = _writes_kind(p, g, memo)
+        if not w:
+            continue
+        ck.saw(g)
+        if cfg.reaches(head, [bi]) and not cfg.dominates(bi, head):
+            after.append(last(g.name))
+            if others:
+                bad.append((last(g.name), t["ln"]))
+        else:
+            before.append(last(g.name))
+    # direct kind writes in parse after the loop
+    for bi, blk in enumerate(f.blocks):
+        if blk["cleanup"] or bi in body or not cfg.reaches(head, [bi]) or cfg.dominates(bi, head):
+            continue
+        for sx in blk["s"]:
+            if sx["k"] == "assign" and "kind" in [e[2] for e in sx["lhs"][1:] if isinstance(e, list) and e[0] == "f"]:
+                bad.append(("a direct assignment in parse", sx["ln"]))
+    ck.floor(rule, "kind-writing passes recognised before the dictionary lookup", len(before), 3)
+    if bad:
+        ck.refuted(rule, "Document::parse:after-lookup", f.loc(bad[0][1]), "%s runs after the dictionary lookup, rewrites token kinds and looks at other tokens to do so: the kind of a word then depends on words outside the ignore context's window, and an ignored lint comes back when only those are edited" % bad[0][0])
+    else:
+        ck.proved(rule, "Document::parse:after-lookup", f.span, "kind-writing passes before the lookup: %s; after it: %s (none looks at other tokens)" % (before, after))
 
 
 def _calls_named(p, fn, suffix):
